@@ -340,7 +340,59 @@ theorem createEnergy_def (r : α) (ru : EnergyRateUnit) (d : α) (du : DistanceU
 
 end
 
+/-! ### The rest of `speed_unit.rs`: unit from a (distance, time) pair, from a name, the highway speed
+
+`SpeedUnit::from((DistanceUnit, TimeUnit))` is `todo!()` for 17 of its 20 pairs; nothing in the
+workspace calls it.  The table is regenerated from the source, so the statements below are re-decided
+on every run: an arm that is filled in must name the unit of that pair. -/
+
+/-- a pair answers with a unit exactly when a speed unit with these associated units exists, and then
+it is that unit; every other pair is the `todo!()` panic -/
+theorem speed_unit_from_pair_iff : ∀ (d : DistanceUnit) (t : TimeUnit) (u : SpeedUnit),
+    SpeedUnit.fromPair d t = .unit u ↔ (u.associatedDistanceUnit = d ∧ u.associatedTimeUnit = t) := by
+  decide +kernel
+
+theorem speed_unit_from_pair_panics_iff : ∀ (d : DistanceUnit) (t : TimeUnit),
+    SpeedUnit.fromPair d t = .panic ↔
+      ∀ u : SpeedUnit, ¬ (u.associatedDistanceUnit = d ∧ u.associatedTimeUnit = t) := by
+  decide +kernel
+
+/-- the unit made from a pair turns distance over time in those units into a speed without any
+factor: physically `1 d / 1 t` -/
+theorem speed_unit_from_pair_physical : ∀ (d : DistanceUnit) (t : TimeUnit) (u : SpeedUnit),
+    SpeedUnit.fromPair d t = .unit u → siSpeed u = siDistance d / siTime t := by
+  decide +kernel
+
+/-- `from_str` reads exactly the serde names (`Display` prints them), nothing else -/
+theorem speed_unit_from_str_iff (s : String) (u : SpeedUnit) :
+    SpeedUnit.fromStr s = some u ↔ s = u.name := by
+  constructor
+  · intro h
+    unfold SpeedUnit.fromStr at h
+    split at h
+    · cases h
+    · simp only [SpeedUnit.ofName?] at h
+      have := List.find?_some h
+      exact (beq_iff_eq.mp this).symm
+  · rintro rfl
+    cases u <;> decide
+
+/-- the "soft maximum" is one and the same physical speed in every unit (75 miles per hour), within
+the property's 0.1 percent, and converting it between units lands on the other unit's own value -/
+theorem max_highway_speed_physical : ∀ u : SpeedUnit,
+    |(SpeedUnit.maxHighwaySpeed u : ℚ) * siSpeed u / (75 * siSpeed .milesPerHour) - 1| ≤ tol := by
+  decide +kernel
+
+theorem max_highway_speed_consistent : ∀ u v : SpeedUnit,
+    |u.convert v (SpeedUnit.maxHighwaySpeed u : ℚ) / (SpeedUnit.maxHighwaySpeed v : ℚ) - 1| ≤ tol := by
+  decide +kernel
+
 /-! ### Non-vacuity: the hypotheses are met by concrete values and the constructors compute -/
+
+example : ∃ d t u, SpeedUnit.fromPair d t = .unit u := ⟨.miles, .hours, _, rfl⟩
+example : ∃ d t, SpeedUnit.fromPair d t = .panic := ⟨.feet, .minutes, rfl⟩
+example : SpeedUnit.fromStr "kph" = none := by decide
+example : (SpeedUnit.fromStr "meters_per_second").isSome = true := by decide
 
 example : (createTime (60 : ℚ) .milesPerHour (30 : ℚ) .miles .minutes).isSome = true := by decide +kernel
 example : createTime (0 : ℚ) .milesPerHour (30 : ℚ) .miles .minutes = none := by decide +kernel
